@@ -51,7 +51,10 @@ CLAIMS = {
          'offset invariant position.byte = start + window offset holds in every reachable state, position after a set read = next unread record; C05q.v (FASTQ; 6): '
          'the same, incl. seeking to the invalid record reproduces its error. Tie: seeks to every saved position from random histories, targets inside and '
          'outside the buffer, on new readers and on readers a source failure has left behind, judged by the Spec cursor machine; also after errors a position reported after a '
-         'returned record must be that record\'s position in the Spec stream. C05i.v: a new reader never takes the in-buffer shortcut; the first call is resumable after an I/O error with the true line count.',
+         'returned record must be that record\'s position in the Spec stream. C05i.v: a new reader never takes the in-buffer shortcut; the first call is resumable after an I/O error with the true line count. '
+         'C05s.v (18): "from any reader state" includes the states a source failure leaves behind - from a reader whose buffer was dropped by a failed refill, or that is still new after a failed first read '
+         '(nothing else is assumed about it), a seek to a record re-establishes the refinement invariant, the next read returns that record and the rest of the stream follows (both formats; FASTQ: seeking to the '
+         'invalid record reproduces its error); end to end from a new reader with one failure anywhere in the read script (C05_*_io_error_then_seek_restores), the state after the failure being derived, not assumed.',
     technique='Coq proof (positions: corollary of refinement; seeks: history refinement) + differential run with cursor-machine oracle',
     ref='5 C05'),
  'C06': dict(
